@@ -129,11 +129,41 @@ func genStructType(r *rand.Rand, depth int) reflect.Type {
 	}
 	if depth > 0 && r.Intn(4) == 0 {
 		// embedded struct (by value or by pointer); StructOf wants the name of the type
-		et := genStructType(r, 0)
+		et := genEmbedded(r, r.Intn(5))
+		if r.Intn(3) == 0 {
+			et = reflect.PointerTo(et)
+		}
 		emb := reflect.StructField{Name: "Emb", Type: et, Anonymous: true}
 		if !used["Emb"] {
 			fields = append(fields, emb)
 		}
+	}
+	return reflect.StructOf(fields)
+}
+
+// genEmbedded: a struct with a few fields of its own that embeds, levels deep, further structs of that kind
+// (promoted fields have index paths of up to six steps; names clash across levels now and then).
+func genEmbedded(r *rand.Rand, levels int) reflect.Type {
+	var fields []reflect.StructField
+	used := map[string]bool{}
+	for i, n := 0, 1+r.Intn(3); i < n; i++ {
+		name := fieldNames[r.Intn(len(fieldNames))]
+		if used[name] || name == "Emb" {
+			continue
+		}
+		used[name] = true
+		f := reflect.StructField{Name: name, Type: fieldTypes[r.Intn(len(fieldTypes))]}
+		if r.Intn(3) == 0 {
+			f.Tag = reflect.StructTag(`json:"` + tagNames[r.Intn(len(tagNames))] + `"`)
+		}
+		fields = append(fields, f)
+	}
+	if levels > 0 {
+		et := genEmbedded(r, levels-1)
+		if r.Intn(4) == 0 {
+			et = reflect.PointerTo(et)
+		}
+		fields = append(fields, reflect.StructField{Name: "Emb", Type: et, Anonymous: true})
 	}
 	return reflect.StructOf(fields)
 }
